@@ -140,13 +140,25 @@ def shard_main(ctx):
             ctx.count("stopped-by-time-budget")
             break
         rnd = random.Random((ctx.seed * 1000 + ctx.shard) * 100003 + i + 77)
-        naming = ["distinct", "identical", "reuse"][i % 3]
-        g = Gen(rnd, naming=naming, method_form=[0.0, 0.5][(i // 3) % 2], hostile_sel=0.5, pack=0.4)
-        try:
-            q, stages = g.chain(rnd.randint(1, 5), rnd.randint(2, 4))
-        except Exception as e:
-            ctx.count("generator-failed:" + type(e).__name__)
-            continue
+        naming = ["distinct", "identical", "reuse", "arglike"][i % 4]
+        g = Gen(rnd, naming=naming, method_form=[0.0, 0.5][(i // 4) % 2], hostile_sel=0.5, pack=0.4)
+        if i % 8 == 7:
+            # C02's targeted re-use families, with a hostile selector spliced in where a projection of the package is taken
+            text = c02.targeted_capture(rnd)
+            text = text.replace("[1]", rnd.choice(["[1]", "[-1]", "[1:][0]", "[(1 if 1 > 0 else 0)]"]), 1)
+            try:
+                q = astx.parse_expr(text)
+            except SyntaxError:
+                ctx.count("harness:targeted-syntax-error")
+                continue
+            g.feat.add("targeted-reuse-family")
+            g.feat.add("selector:targeted")
+        else:
+            try:
+                q, stages = g.chain(rnd.randint(1, 5), rnd.randint(2, 4))
+            except Exception as e:
+                ctx.count("generator-failed:" + type(e).__name__)
+                continue
         if astx.size(q) > 400:
             ctx.count("skipped:input-too-large")
             continue
